@@ -88,9 +88,9 @@ def run(ctx):
                             args=["-dump", "dot,actionlabels", dot])
         _, edges, init = graph.parse_dot(dot)
         os.unlink(dot)
-        walks = graph.edge_cover(edges, init, max_len=12, limit=ctx.pick(400, None))
+        walks = graph.edge_cover(edges, init, max_len=12, limit=ctx.pick(400, 6000))
         data, _ = ctx.generate("Gen_C11", cfg_text="INIT GenInit\nNEXT GenNext\n" + _cfg(2, 2, sa, chains="{1, 2, 3}", frag=True).replace("SPECIFICATION LSpec\n", "")
-                               + " HLen = %s\n HN = %d\n NU = 20\n" % ctx.pick(("{6, 10}", 40), ("{6, 10, 14}", 600)), env=ENV,
+                               + " HLen = %s\n HN = %d\n NU = 20\n" % ctx.pick(("{6, 10}", 40), ("{6, 10, 14}", 250)), env=ENV,
                                out="gen_c11_%s.json" % sa)
         univ = {repr(sorted(x["a"].items())): x["u"] for x in data["univ"]}
         ulist = [x["u"] for x in data["univ"]]
@@ -115,7 +115,7 @@ def run(ctx):
         urls = sorted(urls)
         step = max(1, len(urls) // 20)
         urls = urls[::step][:20]
-        for i, h in enumerate(hist[:ctx.pick(30, 400)]):
+        for i, h in enumerate(hist[:ctx.pick(30, 300)]):
             cases.append({"cls": cls, "sa": i % 2 == 1, "urls": urls, "ops": [[(t[0] - 1) % len(urls), VALS[t[1] - 1], t[2]] for t in h]})
 
     def nontrivial(c, tr):
